@@ -59,6 +59,13 @@ func namesakeB() interface{} {
 	return Reading{}
 }
 
+// MapTree: a type that refers to itself through a map value (and nothing else).
+type MapTree struct {
+	V    int                `plenc:"1"`
+	Kids map[string]MapTree `plenc:"2"`
+	S    string             `plenc:"3"`
+}
+
 // Zeros: elements, values and fields of size zero.
 type Empty struct{}
 
@@ -474,6 +481,7 @@ func init() {
 	reg("[]*Node", "F2", []*Node{}, notTop)
 	reg("map[string]*Node", "F2", map[string]*Node{}, notTop)
 	reg("Tree", "F2", Tree{})
+	reg("MapTree", "F2", MapTree{})
 	reg("[]Tree", "F2", []Tree{}, notTop)
 
 	reg("RA", "F3", RA{})
